@@ -314,7 +314,9 @@ Inductive loc :=
 Record resp := {
   r_status : N;
   r_loc : loc;
-  r_full : bool             (* the connection used for this exchange was an untunnelled proxy *)
+  r_full : bool;            (* the connection used for this exchange was an untunnelled proxy *)
+  r_xraise : bool           (* CookieJar.extract_cookies raised ValueError for this response (http.cookiejar calls
+                               urllib.parse.urlsplit on the request URL, which refuses e.g. a '[' in the user-info) *)
 }.
 
 Inductive nxt := NOrig | NOther (q : req) | NDone.
@@ -420,7 +422,9 @@ Section Session.
       end
     else Some s.
 
-  Definition finish (sn : sent) (s : sess) : sent * outcome :=
+  Definition finish (r : resp) (sn : sent) (s : sess) : sent * outcome :=
+    if c_use_jar c && r_xraise r then (sn, OErr ERR_COOKIE_URL)      (* _extract_cookies raised *)
+    else
     match cookies_after s with
     | Some s' => (sn, OSess s')
     | None => (sn, OErr ERR_COOKIE_URL)
@@ -452,23 +456,23 @@ Section Session.
             if copy_fails then (sn, OErr ERR_COPY) else
             let nq := if is_repeat (r_status r) then repeat_request (ss_orig s1) u else fresh (c_base c) u in
             let nq := prepare_for_send nq in
-            finish sn (
+            finish r sn (
                           {| ss_orig := ss_orig s1; ss_next := NOther nq; ss_loop_auth := false;
                              ss_auths := ss_auths s1; ss_nredir := n'; ss_t := ss_t s1 |})
         end
     else if (r_status r =? 401) && nonempty (q_pass q2) then
       if ss_loop_auth s1 then
-        finish sn (
+        finish r sn (
                       {| ss_orig := ss_orig s1; ss_next := NDone; ss_loop_auth := false;
                          ss_auths := ss_auths s1; ss_nredir := n'; ss_t := ss_t s1 |})
       else
         let s2 := upd s1 (add_basic_auth q2) in
-        finish sn (
+        finish r sn (
                       {| ss_orig := ss_orig s2; ss_next := ss_next s2; ss_loop_auth := true;
                          ss_auths := hostname_with_port (q_url q2) :: ss_auths s2;
                          ss_nredir := n'; ss_t := ss_t s2 |})
     else
-      finish sn (
+      finish r sn (
                     {| ss_orig := ss_orig s1; ss_next := NDone; ss_loop_auth := false;
                        ss_auths := ss_auths s1; ss_nredir := n'; ss_t := ss_t s1 |}).
 
@@ -497,7 +501,7 @@ End Session.
 
 (* observation compared with the implementation: the bytes of every request and how the fetch ended
    (0 done, 9 server script exhausted, 1/2/3 ProtocolError kinds, 4 copy of a request body failed,
-   5 urllib refused the URL while the cookie header was added) *)
+   5 urllib refused the URL while the cookie header was added or the cookies were extracted) *)
 Definition observe (x : list sent * N) : list (option (list N)) * N := (map sn_bytes (fst x), snd x).
 
 (* the jar instantiated by a recorded table of answers *)
